@@ -43,6 +43,9 @@ func verifK18Model() *openfgav1.AuthorizationModel {
 	if name == "k18mix" {
 		return verifK18MixModel()
 	}
+	if name == "k18self" {
+		return verifK18SelfModel()
+	}
 	return vtmodels.Model(name)
 }
 
